@@ -1,0 +1,10 @@
+//go:build verif
+
+package ugo
+
+// Exports for the verification harness in /verif (build tag verif only).
+
+// VerifDefineConstLit exposes SymbolTable.defineConstLit.
+func (st *SymbolTable) VerifDefineConstLit(name string) (*Symbol, bool) {
+	return st.defineConstLit(name)
+}
